@@ -153,6 +153,18 @@ Definition blocks {A} (N : Z) (l : list A) : list (list A) :=
 Definition load (fixed : bool) (N : Z) (lines : list (option gline)) : gstate :=
   fold_left (block_step fixed) (blocks N lines) st_init.
 
+(** ---------- several files (a path with wildcards) ---------- *)
+(** [for path in paths]: [seen_ids] and the table are shared by the files;
+    [carry = true]: the fake-id counter is shared as well (the rule of
+    notes/proposed_fixes/C17-4.diff); [carry = false]: it restarts at 0 for
+    every file (the source as first read, finding C17-4) *)
+Definition file_step (fixed carry : bool) (N : Z) (st : gstate) (f : list (option gline)) : gstate :=
+  fold_left (block_step fixed) (blocks N f)
+    (if carry then st else {| st_k := 0; st_seen := st_seen st; st_db := st_db st |}).
+
+Definition load_files (fixed carry : bool) (N : Z) (files : list (list (option gline))) : gstate :=
+  fold_left (file_step fixed carry N) files st_init.
+
 (** ---------- observation ---------- *)
 Definition gname_val (n : gname) : val := match n with GReal s => VS s | GFake k => VL [VZ k] end.
 Definition grow_val (r : grow) : val :=
@@ -168,3 +180,8 @@ Definition mkgl (id : option str) (seqid biotype strand attrs : str) (s e : Z) :
 Definition run_blocks (c : bool * list (option gline) * list Z) : val :=
   let '(fixed, lines, Ns) := c in
   VL (map (fun N => VL (map grow_val (st_db (load fixed N lines)))) Ns).
+
+(** a case: variants, files in the order the loader visits them, block sizes *)
+Definition run_files (c : bool * bool * list (list (option gline)) * list Z) : val :=
+  let '(fixed, carry, files, Ns) := c in
+  VL (map (fun N => VL (map grow_val (st_db (load_files fixed carry N files)))) Ns).
